@@ -170,7 +170,7 @@ func c09Corpus(run *common.Run, thorough bool) {
 		for _, p := range b {
 			in[p.Path] = true
 		}
-		if crash := out.Crashed(); crash != "" {
+		if crash := c10CrashText(out, c.driver); crash != "" {
 			run.Report(common.Cex{Sig: fmt.Sprintf("corpus|crash|driver=%s|config=%s|%s", c.driver, c.cfg.Name, c09FirstLine(crash)),
 				Summary: fmt.Sprintf("%s (%s) did not end normally on unannotated packages %s..%s: %s", c.driver, c.cfg.Name, b[0].Path, b[len(b)-1].Path, c09FirstLine(crash)),
 				Detail:  map[string]any{"cmd": out.Cmd, "dir": "scratch consumer module (see c09_corpus.go)", "crash": crash}})
